@@ -33,7 +33,7 @@ OUT = '/db/Recovered.fs'
 ASSUMPTIONS = [
     'destination mapping: only histories without undo records or repeated stores (MappingStorage has no restore(); the '
     'documented store() fallback of copy() cannot reproduce those)',
-    'source histories: templates T1-T6 (undo records, un-creation, restore with back-pointer hints, deleteObject) and a '
+    'source histories: templates T1-T6, T12 (two undos of one object in one transaction, later change, undo of it), (undo records, un-creation, restore with back-pointer hints, deleteObject) and a '
     'packed graph history; destination kinds file and mapping',
     'recovery: damage = one region: truncation at a symbolic length, or 1/4 bytes at a solver-chosen offset replaced by a '
     'byte of a solver-chosen class (".", "c", " ", "p", "u", 0x00, 0xff, 0x17); longer/multiple regions outside the claim',
@@ -60,6 +60,30 @@ def _source(template):
         from ZODB.serialize import referencesf
         g.s.pack(env.clock.now - 3.5, referencesf)
         return env, g.s, GR.model_from_storage(g.s)
+    if template == 'T12':
+        # two undos of one object in ONE transaction (two records of the same oid), a later change, and its undo
+        import base64
+        env = T.Env()
+        s = env.filestorage()
+        h = T.Hist(s)
+        o = T.oid(1)
+        tids = [h.commit([(o, b'state-%d' % i), (T.oid(2), b'other-%d' % i)]) for i in (1, 2, 3)]
+        t = T.meta(b'u', b'double undo')
+        s.tpc_begin(t)
+        s.undo(base64.encodebytes(tids[2]).rstrip(), t)
+        s.undo(base64.encodebytes(tids[1]).rstrip(), t)
+        s.tpc_vote(t)
+        s.tpc_finish(t)
+        data, serial = s.load(o)
+        assert data == b'state-1', data
+        h.serial[o] = serial
+        t5 = h.commit([(o, b'state-5')])
+        t = T.meta(b'u', b'undo of the later change')
+        s.tpc_begin(t)
+        s.undo(base64.encodebytes(t5).rstrip(), t)
+        s.tpc_vote(t)
+        s.tpc_finish(t)
+        return env, s, GR.model_from_storage(s)
     env, s, h = T.build_file(template)
     return env, s, h.m
 
@@ -202,10 +226,14 @@ def _run_recover(env, budget):
 
 def h_recover_clean(sel: int) -> None:
     """Undamaged file: the recovered storage answers every revision query like the source."""
-    names = ['T1', 'T2', 'T3', 'T4', 'T5', 'T6', 'T10']
+    names = ['T1', 'T2', 'T3', 'T4', 'T5', 'T6', 'T10', 'T12']
     k = choose(sel, len(names))
     with untraced():
-        env, s, h = T.build_file(names[k])
+        env, s, m_ = _source(names[k])
+
+        class _H:
+            m = m_
+        h = _H
         s.close()
         size = len(env.fs.content(SRC))
         _run_recover(env, 8 * size + 400)
@@ -284,9 +312,9 @@ HARNESSES = [
                   'TransactionRecordIterator'],
             quick=dict(timeout=170, shards=shards(template=['T4', 'T5'], dest=['file'], use_start=[True], use_stop=[False])
                        + shards(template=['T4'], dest=['file'], use_start=[False], use_stop=[True])
-                       + shards(template=['T1', 'T2', 'T6', 'PACKED'], dest=['file'], use_start=[False], use_stop=[False])
+                       + shards(template=['T1', 'T2', 'T6', 'PACKED', 'T12'], dest=['file'], use_start=[False], use_stop=[False])
                        + shards(template=['T1', 'T3'], dest=['mapping'], use_start=[False], use_stop=[False])),
-            thorough=dict(timeout=900, shards=shards(template=_SRC + ['PACKED'], dest=['file'], use_start=[True, False], use_stop=[True, False])
+            thorough=dict(timeout=900, shards=shards(template=_SRC + ['PACKED', 'T12'], dest=['file'], use_start=[True, False], use_stop=[True, False])
                           + shards(template=['T1', 'T3'], dest=['mapping'], use_start=[True, False], use_stop=[False]))),
     Harness('recover_clean', h_recover_clean,
             decides='fsrecover on an undamaged file reproduces the history (every revision query)',
